@@ -68,11 +68,12 @@ REG = {
         "runners": ["engine", "frame", "api"],
     },
     "C06": {
-        "modules": ["VProofs.Props.C06", "VProofs.Props.NumpyMore", "VProofs.Props.PyListRel"],
+        "modules": ["VProofs.Props.C06", "VProofs.Props.NumpyMore", "VProofs.Props.PyListRel", "VProofs.Props.C06More"],
         "theorems": thms("C06", ["C06_shape", "C06_lossless_float_integer", "C06_lossless_complex_float",
                                  "C06_lossless_datetime_date", "oks_length", "C06_shape_infer", "C06_nulls_step"]) + ["V.Pd.nulls_pandas",
                     "V.NumpyProps.C06_shape_numpy", "V.NumpyProps.C06_witness_F42", "V.NumpyProps.C06_lossless_float_integer_numpy",
-                    "V.NumpyProps.C06_lossless_complex_float_numpy", "V.PyProps.C06_length_list"],
+                    "V.NumpyProps.C06_lossless_complex_float_numpy", "V.PyProps.C06_length_list",
+                    "V.C06.applyStr_pointwise", "V.C06.C06_decode_object_targets", "V.C06.C06_decode_string_float", "V.C06.C06_decode_string_complex"],
         "runners": ["pandas", "frame", "family", "numpy", "list", "api"],
         "relevant": ["xform", "infer-data", "guard", "relation-missing"],
     },
@@ -103,11 +104,12 @@ REG = {
         "partial": "the model cannot exhibit global state it does not name, nor hash-seed / process dependence: observed by the History runner",
     },
     "C11": {
-        "modules": ["VProofs.Props.C11", "VProofs.Props.PyList", "VProofs.Props.NumpyMore", "VProofs.Props.Shapes"],
+        "modules": ["VProofs.Props.C11", "VProofs.Props.PyList", "VProofs.Props.NumpyMore", "VProofs.Props.Shapes", "VProofs.Props.NumpyC11"],
         "theorems": thms("C11", ["C11_sim", "C11_membership_pandas", "C11_repeat_pandas", "C11_detect_pandas",
                                  "C11_detect_repeat_pandas", "C11_infer_pandas"])
                     + ["V.Pd.guard_accBag", "V.Pd.xform_equiBag", "V.Pd.infer_bag", "V.PyProps.C11_membership_list", "V.PyProps.C11_detect_list",
-                       "V.NumpyProps.isString_iff", "V.NumpyProps.C11_membership_numpy"] + ["V.Shapes.shapes_match"],
+                       "V.NumpyProps.isString_iff", "V.NumpyProps.C11_membership_numpy", "V.Np.guard_accBagN", "V.Np.xform_equiBagN",
+                       "V.Np.infer_bag_np", "V.NumpyProps.C11_detect_numpy", "V.NumpyProps.C11_infer_numpy"] + ["V.Shapes.shapes_match"],
         "runners": ["bag", "pandas", "numpy", "list"],
         "relevant": ["contains", "detect", "guard", "infer-path"],
         "partial": "k-fold repetition is proved for membership and detect_type only (infer_type under repetition, and the numpy / list back ends, are explored by the bag and sequence runners); DtBag (pd.to_datetime parses element by element) is a hypothesis",
